@@ -28,6 +28,12 @@ func ConvertUndDenomination(amount string, from string, to string) (string, erro
 		if err != nil {
 			return "", err
 		}
+		// exact decimal arithmetic: a float64 only carries ~15-17 significant digits, so amounts
+		// such as 123456789.123456789 were converted to the wrong number of nund
+		if exact, ok := new(big.Rat).SetString(amount); ok {
+			exact.Mul(exact, new(big.Rat).SetInt64(1e9))
+			return new(big.Int).Quo(exact.Num(), exact.Denom()).String() + to, nil
+		}
 		fromAmtBf := new(big.Float).SetFloat64(fromAmt)
 		res := fromAmtBf.Mul(fromAmtBf, big.NewFloat(UndPow))
 		result := new(big.Int)
@@ -37,6 +43,11 @@ func ConvertUndDenomination(amount string, from string, to string) (string, erro
 		fromAmt, err := strconv.ParseFloat(amount, 64)
 		if err != nil {
 			return "", err
+		}
+		// exact decimal arithmetic, see above
+		if exact, ok := new(big.Rat).SetString(amount); ok {
+			exact.Quo(exact, new(big.Rat).SetInt64(1e9))
+			return exact.FloatString(9) + to, nil
 		}
 		fromAmtBf := new(big.Float).SetFloat64(fromAmt)
 		res := fromAmtBf.Mul(fromAmtBf, big.NewFloat(NundPow))
